@@ -128,9 +128,12 @@ def openBlock (verify : Bool) (block : Bytes) : Except ReadErr (Nat × Bytes) :=
 
 /-! ### Read path with the block cache (`Column::get_block`)
 
-`try_get_with(key, load)`: on a miss the loaded bytes are inserted into the cache *by moka,
-before* `get_block` decodes the trailer and verifies the checksum; on a hit nothing is
-verified.  A failed verification does not evict the entry. -/
+Since the repair `fix: verify block checksum before publishing the block in the cache`: the loader
+passed to `try_get_with(key, load)` decodes the trailer and verifies the checksum itself and returns
+`Err` on failure, and moka does not cache a failed load — so only verified blocks are ever published
+(`getBlock`).  `getBlockCacheFirst` is the read path before the repair (bytes inserted by moka before
+`get_block` verified them, a failed verification did not evict the entry); it is kept so that the
+refutation of that design stays machine-checked. -/
 
 structure BlockCache where
   entries : List (Nat × Bytes) := []
@@ -142,9 +145,9 @@ def BlockCache.get (c : BlockCache) (k : Nat) : Option Bytes :=
 def BlockCache.insert (c : BlockCache) (k : Nat) (v : Bytes) : BlockCache :=
   { entries := (k, v) :: c.entries.filter (·.1 != k) }
 
-/-- One `get_block(block_id)` against file bytes `file` with index entry (offset, length).
+/-- The read path BEFORE the repair: cache first, verify afterwards (fresh loads only).
 A short file is an I/O error (`read_exact_at`), which `try_get_with` does not cache. -/
-def getBlock (cache : BlockCache) (file : Bytes) (key off len : Nat) :
+def getBlockCacheFirst (cache : BlockCache) (file : Bytes) (key off len : Nat) :
     BlockCache × Except ReadErr (Nat × Bytes) :=
   match cache.get key with
   | some b => (cache, openBlock false b)
@@ -154,8 +157,9 @@ def getBlock (cache : BlockCache) (file : Bytes) (key off len : Nat) :
       let b := (file.drop off).take len
       (cache.insert key b, openBlock true b)
 
-/-- The repaired read path (candidate fix): verify before publishing to the cache. -/
-def getBlockFixed (cache : BlockCache) (file : Bytes) (key off len : Nat) :
+/-- One `get_block(block_id)` against file bytes `file` with index entry (offset, length): verify,
+then publish; cache hits are served unverified (they were verified when loaded). -/
+def getBlock (cache : BlockCache) (file : Bytes) (key off len : Nat) :
     BlockCache × Except ReadErr (Nat × Bytes) :=
   match cache.get key with
   | some b => (cache, openBlock false b)
